@@ -56,6 +56,65 @@ FAILERS.update({
     "modes_tlcs900": "\tcpu 96c141\n\tmaxmode on\n\tsupmode on\n\tfrob\n",
 })
 MODE_FAILERS = sorted(k for k in FAILERS if k.startswith("modes_"))
+# predecessors with many errors of one kind (whatever an error path books - nesting counters, stacks, lists - must
+# not be left behind for the next source)
+FAILERS.update({
+    "vol_func": "\tcpu z80\npk\tfunction a,b,a+b\n\trept 70\n\tdb pk(3)\n\tdb pk(nix,1)\n\tendm\n",
+    "vol_macro": "\tcpu z80\nvm\tmacro p\n\tdb p\n\tfrob\n\tendm\n\trept 70\n\tvm 1\n\tvm\n\tendm\n",
+    "vol_expr": "\tcpu 6502\n\trept 70\n\tbyt 1/0\n\tbyt nix+1\n\tbyt substr(1,2,3)\n\tbyt \"a\"+1.5\n\tbyt (1\n\tendm\n",
+    "vol_struct": "\tcpu 68000\n\trept 70\nrec\tstruct\nf1\tds.w 1\n\tfrob\n\tendstruct\n\tendm\n",
+    "vol_section": "\tcpu 8051\n\trept 70\n\tsection s\n\tpublic nix\n\tendsection t\n\tendm\n",
+    "vol_pushv": "\tcpu z80\nv\tset 1\n\trept 70\n\tpushv st,v\n\tpopv nost,v\n\tendm\n",
+    "vol_if": "\tcpu z80\n\trept 70\n\tif nix\n\tnop\n\tendif\n\telse\n\tendif\n\tendm\n",
+})
+VOL_FAILERS = sorted(k for k in FAILERS if k.startswith("vol_"))
+
+# small valid successor programs: the multi-byte data statements of 36 code generators (byte order, word size and
+# packing flags of shared pseudo-op modules must come from the program's own target, not from an earlier source)
+PROBES = {
+    'lang_func': '\tcpu z80\nlo8\tfunction x,x&255\nhi8\tfunction x,lo8(x>>8)\n\tdb lo8(1234h),hi8(1234h)\n',
+    'lang_macro': '\tcpu z80\nmm\tmacro a,b\nl1:\tdb a\n\tdw l1\n\tif b\n\tmm a+1,b-1\n\tendif\n\tendm\n\tmm 1,3\n',
+    'lang_struct': '\tcpu 68000\nrec\tstruct\nf1\tds.w 1\nf2\tds.l 1\nrec\tendstruct\n\tdc.w rec_f2,rec_len\nv\trec\n\tdc.w v_f2\n',
+    'lang_section': '\tcpu 8051\n\tsection a\n\tpublic x\nx:\tnop\n\tsection b\ny:\tnop\n\tsjmp y\n\tendsection\n\tendsection\n\tsjmp x\n',
+    'lang_stack': '\tcpu z80\nv\tset 1\n\tpushv st,v\nv\tset 2\n\tpopv st,v\n\tdb v\n\tsave\n\tlisting off\n\trestore\n\tdb 3\n',
+    'lang_cond': '\tcpu z80\n\tswitch 3\n\tcase 1,2\n\tdb 1\n\tcase 3\n\tdb 3\n\telsecase\n\tdb 9\n\tendcase\n\tifdef nix\n\tdb 7\n\telseif\n\tdb 8\n\tendif\n',
+    '1802': '\tcpu 1802\n\torg 100h\n\tdw 1234h\n\tdd 12345678h\n',
+    '320c25': '\tcpu 320c25\n\torg 100h\n\tword 1234h\n\tlong 12345678h\n\tstring "abc"\n\tfloat 1.5\n',
+    '320c30': '\tcpu 320c30\n\torg 100h\n\tword 12345678h\n\tsingle 1.5\n\tdata "abcde"\n',
+    '4004': '\tcpu 4004\n\torg 10h\n\tdata 12h,34h\n',
+    '6502': '\tcpu 6502\n\torg $200\n\tadr $1234\n\tfdb $5678\n\tbyt 1,2\n',
+    '6800': '\tcpu 6800\n\torg $100\n\tfdb $1234\n\tdw $5678\n\tadr $9abc\n',
+    '6804': '\tcpu 6804\n\torg $100\n\tdw $1234\n\tfdb $5678\n',
+    '6805': '\tcpu 6805\n\torg $100\n\tfdb $1234\n\tdw $5678\n',
+    '6809': '\tcpu 6809\n\torg $100\n\tfdb $1234\n\tadr $5678\n\tdc.w $9abc\n\tdc.l $12345678\n\tfcc "ab"\n\tdw $1122\n',
+    '68hc12': '\tcpu 68hc12\n\torg $1000\n\tfdb $1234\n\tdw $5678\n\tdc.w $9abc\n\tdc.l $12345678\n',
+    '68k': '\tcpu 68000\n\torg $1000\n\tdc.w $1234\n\tdc.l $12345678\n\tdc.b 1,2\n\tdc.s 1.5\n',
+    '78k0': '\tcpu 78070\n\torg 100h\n\tdw 1234h\n\tdd 12345678h\n',
+    '8051': '\tcpu 8051\n\torg 100h\n\tdw 1234h\n\tdd 12345678h\n\tdb 1,2\n',
+    '8086': '\tcpu 8086\n\torg 100h\n\tdw 1234h\n\tdd 12345678h\n\tdq 1.5\n',
+    'avr': '\tcpu atmega8\n\torg 0x10\n\tdata 0x1234,0x5678\n\tdata "abc"\n',
+    'cop8': '\tcpu cop87l84\n\torg 0x100\n\tword 0x1234\n\taddrw 0x5678\n\tbyte 1\n',
+    'cp1600': '\tcpu cp-1600\n\torg 256\n\tword 4660\n',
+    'f2mc8': '\tcpu mb89190\n\torg 100h\n\tdw 1234h\n\tdb 1\n',
+    'h8': '\tcpu h8/300\n\torg $100\n\tdc.w $1234\n\tdc.l $12345678\n\tdc.b 1\n',
+    'kcpsm': '\tcpu kcpsm3\n\torg 10h\n\tload s0,12h\n',
+    'm16c': '\tcpu m16c\n\torg 100h\n\tdw 1234h\n\tdd 12345678h\n',
+    'mcore': '\tcpu mcore\n\torg $100\n\tdc.w $1234\n\tdc.b 1,2\n',
+    'msp430': '\tcpu msp430\n\torg 200h\n\tword 1234h\n\tbyte 1,2,3\n\tword 5678h\n',
+    'ns32k': '\tcpu ns32016\n\torg 100h\n\tdw 1234h\n\tdd 12345678h\n',
+    'pic': '\tcpu 16c84\n\torg $10\n\tdata $1234,5\n',
+    'ppc': '\tcpu mpc601\n\torg 0x100\n\tdw 0x1234\n\tdd 0x12345678\n',
+    'scmp': '\tcpu sc/mp\n\torg 0x100\n\tdw 0x1234\n\tdb 1\n',
+    'sh': '\tcpu sh7000\n\torg $100\n\tdc.w $1234\n\tdc.l $12345678\n',
+    'st6': '\tcpu st6225\n\torg 100h\n\tword 1234h,5678h\n\tbyte 1,2\n\tascii "ab"\n\tasciz "c"\n',
+    'st7': '\tcpu st7\n\torg $100\n\tdc.w $1234\n\tdc.l $12345678\n\tdc.b 1,2\n',
+    'tlcs900': '\tcpu 96c141\n\torg 100h\n\tdw 1234h\n\tdd 12345678h\n',
+    'tms7000': '\tcpu tms70c00\n\torg 100h\n\tdw 1234h\n\tdb 1\n',
+    'tms9900': '\tcpu tms9900\n\torg 100h\n\tword 1234h\n\tbyte 1,2\n\tsingle 1.5\n',
+    'xa': '\tcpu xag3\n\torg 256\n\tdc.w 4660\n\tdc.b 1,2\n',
+    'z8': '\tcpu z8601\n\torg 100h\n\tdw 1234h\n\tdd 12345678h\n',
+    'z80': '\tcpu z80\n\torg 100h\n\tdw 1234h\n\tdd 12345678h\n\tdb 1,2\n\tdd 1.5\n',
+}
 
 
 def budget(tier):
@@ -88,7 +147,7 @@ def compatible(names):
     seen = {}
     for n in names:
         n = tname(n)
-        if n.startswith("!"):
+        if n.startswith(("!", "?")):
             continue
         for k, v in corpus.load(n)["extra"].items():
             if k in seen and seen[k] != v:
@@ -107,6 +166,12 @@ def strategy_(d, tier):
             names.append("!" + d.choice(sorted(FAILERS)))
         else:
             names.append(pt[d.int(0, len(pt) - 1)])
+    if d.bool(0.12):
+        # any predecessor, then a data probe of another code generator
+        names = names[:k - 1] + ["?" + d.choice(sorted(PROBES))]
+        if d.bool(0.5):
+            names[0] = "?" + d.choice(sorted(PROBES))
+        return dict(files=names)
     if d.bool(0.45):
         # same code generator before and after: the predecessor ends with state statements (ASSUME of the family's
         # registers, mode switches), the successor is a golden program of that family, often with some numeric
@@ -136,6 +201,8 @@ def source_of(n, idx):
         return "e%d_%s.asm" % (idx, n["t"]), src, t["extra"]
     if n.startswith("!"):
         return "f%d_%s.asm" % (idx, n[1:]), FAILERS[n[1:]].encode(), {}
+    if n.startswith("?"):
+        return "p%d_%s.asm" % (idx, n[1:]), PROBES[n[1:]].encode(), {}
     t = corpus.load(n)
     return n + ".asm", t["src"], t["extra"]
 
@@ -238,6 +305,20 @@ def fixed_cases(tier):
     for mk in MODE_FAILERS:
         for t in pt:
             out.append(dict(files=["!" + mk, t]))
+    # every data probe after every other one (36 x 35 pairs, three assemblies of a few ms each) and after the
+    # mode-leaving predecessors
+    pk = sorted(PROBES)
+    for i, a in enumerate(pk):
+        for j, b in enumerate(pk):
+            if a != b:
+                out.append(dict(files=["?" + a, "?" + b]))
+    for mk in MODE_FAILERS + VOL_FAILERS:
+        for b in pk:
+            out.append(dict(files=["!" + mk, "?" + b]))
+    for vk in VOL_FAILERS:
+        for i, t in enumerate(pt):
+            if tier != "quick" or i % 4 == engine.seed_from_env() % 4:
+                out.append(dict(files=["!" + vk, t]))
     return out
 
 
